@@ -29,6 +29,8 @@ type SPlan struct {
 	// Construct selects the construction-failure scenario of C10 (real
 	// shimagent.New over a unix socket served by the harness): "" | fault kind
 	Construct string `json:"construct,omitempty"`
+	// Comp selects Option.PubKeyComp ("to list credentials in a specific order"): "" default | asc | desc | certfirst | never
+	Comp string `json:"comp,omitempty"`
 }
 
 func pick[T any](r *sim.Rng, xs []T) T { return xs[r.Intn(len(xs))] }
@@ -85,6 +87,11 @@ func genS(prop string) func(r *sim.Rng, tier string) any {
 		kinds := []string{"ed25519", "ed25519", "ecdsa256", "rsa2048"}
 		for i := 0; i < nk; i++ {
 			p.Keys = append(p.Keys, SKey{Role: fmt.Sprintf("K%d", i), Kind: pick(r, kinds)})
+		}
+		if prop != "C09" && r.Bool(0.25) {
+			// a security-key identity: listed and certified, but this agent cannot sign with it
+			p.Keys = append(p.Keys, SKey{Role: fmt.Sprintf("K%d", nk), Kind: "sk-ed25519"})
+			nk++
 		}
 		nc := r.Range(2, 8)
 		for i := 0; i < nc; i++ {
@@ -156,7 +163,7 @@ func genS(prop string) func(r *sim.Rng, tier string) any {
 				st.Arg = pick(r, []string{"pw1", "pw2", ""})
 				locked = true
 			case "unlock":
-				st.Arg = pick(r, []string{"pw1", "pw2", "wrong", ""})
+				st.Arg = pick(r, []string{"pw1", "pw2", "wrong", "", "pw1", "pw1\n", "pw1\r\n", "\n", "pw1 ", "pw1\x00", "PW1"})
 				_ = locked
 			case "ext":
 				st.Arg = fmt.Sprintf("ext-%d", i)
@@ -201,6 +208,34 @@ func genS(prop string) func(r *sim.Rng, tier string) any {
 					}
 				}
 			}
+		}
+		if prop == "C10" && r.Bool(0.2) {
+			// an underlying agent that is merely slow (touch or PIN prompt): no fault, the reply is honest. Such
+			// plans carry no time boundaries, so that it does not matter when within the slow call the clock is read.
+			for i := range p.Certs {
+				switch p.Certs[i].Window {
+				case "lapsing":
+					p.Certs[i].Window = "current"
+				case "starting":
+					p.Certs[i].Window = "future"
+				}
+				p.Certs[i].T = 0
+			}
+			for i := range p.Steps {
+				if p.Steps[i].Op == "add" {
+					p.Steps[i].N = 0
+				}
+				if p.Steps[i].Op == "advance_to" {
+					p.Steps[i].Op, p.Steps[i].N = "advance", 60
+				}
+			}
+			for i := 0; i < r.Range(1, 3); i++ {
+				p.Faults = append(p.Faults, refagent.PeerFault{At: -1, OnKind: pick(r, []string{"raw", "raw", "raw", "sign", "list", "add", "remove", "ext", "lock"}),
+					Nth: r.Intn(3), Fault: fmt.Sprintf("%s%d", refagent.SlowPrefix, pick(r, []int{1, 9, 11, 29, 31, 61, 301, 3601, 86401}))})
+			}
+		}
+		if (prop == "C10" || prop == "C07") && r.Bool(0.3) {
+			p.Comp = pick(r, []string{"asc", "desc", "certfirst", "never"})
 		}
 		if prop == "C10" && r.Bool(0.08) {
 			p.Construct = pick(r, append([]string{"refuse_dial"}, refagent.AllFaults...))
@@ -254,6 +289,11 @@ func shrinkS(raw json.RawMessage) []json.RawMessage {
 	if p.Dual {
 		q := clone()
 		q.Dual = false
+		emit(q)
+	}
+	if p.Comp != "" {
+		q := clone()
+		q.Comp = ""
 		emit(q)
 	}
 	return out
